@@ -79,6 +79,11 @@ BOX_SPECS_2D = [{"kind": "L2D", "bounds": BOX_A}, {"kind": "L2D", "bounds": BOX_
                 {"kind": "Bal", "child": {"kind": "L2D", "bounds": BOX_B}, "nchild": 2, "strategy": "npoints"}]
 
 
+def has_ds(spec):
+    """Is there a DataSaver anywhere in the (possibly nested) configuration?"""
+    return spec["kind"] == "DS" or spec["kind"] == "Bal" and has_ds(spec["child"])
+
+
 def sig(spec, clause):
     return f"C10:{G.spec_name(c09._sig_spec(spec))}:{clause}"
 
@@ -135,7 +140,8 @@ class Oracle:
         self.open_bounds = set()
         if G.base_kind(self.spec) != "Avg1D":
             return
-        kids = list(enumerate(l.learners)) if self.spec["kind"] == "Bal" else [(None, l.learner if self.spec["kind"] == "DS" else l)]
+        top_bal = self.spec["kind"] == "Bal"
+        kids = [(i if top_bal else None, b) for i, (a, b) in enumerate(c09.leaves(self.ad, l))]     # innermost learners (any nesting)
         for i, c in kids:
             for b in c.bounds:
                 if b not in c.data:
@@ -271,7 +277,7 @@ class Oracle:
             d = [k for k in d if k not in ("loss_real", "loss_exp", "child_exp")]     # cached; the freshly computed losses are compared
         if not d:
             return
-        if self.spec["kind"] == "DS" and d == ["extras"] and ad.keeps_first and not same_value:
+        if has_ds(self.spec) and all(k == "extras" or k.endswith(".extra_data") for k in d) and ad.keeps_first and not same_value:
             self.err(SIG_F20, f"{name}: re-tell {G.short(op)} of a known point left data unchanged but replaced extra_data of that point")
             return
         k = d[0]
@@ -318,7 +324,8 @@ def run_case(args):
     warnings.filterwarnings("ignore")
     ad = G.adapter(spec)
     rng = random.Random(seed)
-    fragile = spec["kind"] == "Bal" or G.base_kind(spec) == "Int"
+    # (nested wrappers: about every seventh ask is a tentative one -- it must not disturb what the innermost learners hold)
+    fragile = (spec["kind"] == "Bal" and G.wrapper_depth(spec) < 2) or G.base_kind(spec) == "Int"
     w = {"commit": 1.0 if fragile else 0.85, "ask": 0.26, "tell": 0.34, "tell_many": 0.09, "tell_pending": 0.08, "retell": 0.14}
     l = ad.make()
     orc = Oracle(ad, spec)
@@ -608,11 +615,16 @@ def run(chk: Check) -> int:
                  {"spec": {"kind": "L2D"}, "ops": [], "smoke": "l2d"})
     bi_exc = c09.bal_int_smoke()
     specs = c09.all_specs(l2d_ok=not l2d_exc, bal_int_ok=not bi_exc) + EXTRA_SPECS + BOX_SPECS_ND + ([] if l2d_exc else BOX_SPECS_2D)
+    # wrappers inside wrappers (BalancingLearner over DataSavers, DataSaver over a BalancingLearner, BalancingLearner over
+    # BalancingLearners, three levels): the same clauses, judged on what the innermost learners hold
+    nflat = len(specs)
+    specs = specs + c09.nested_specs(l2d_ok=not l2d_exc)
     per = 20 if chk.quick else 120
+    per_nested = 6 if chk.quick else 36
     nops = 30 if chk.quick else 90
     jobs = []
     for si, spec in enumerate(specs):
-        for c in range(per):
+        for c in range(per if si < nflat else per_nested):
             # openings: scripted ask/tell-all/discard; interior hull first (LearnerND); strategy switches (BalancingLearner)
             lnd = G.base_kind(spec) == "LND"
             mode = True if c % 3 == 0 else ("hull" if c % 3 == 1 and lnd else
@@ -656,13 +668,16 @@ def run(chk: Check) -> int:
     chk.extra["minimised_failing_inputs"] = {s: {"learner": G.spec_name(f["replay"]["spec"]), "ops": f["replay"]["ops"]}
                                              for s, f in shrunk.items()}
     chk.extra.update({"histories_per_learner_type": per_type, "op_histogram": kinds, "feature_counts": tot,
-                      "configurations": len(specs), "exhaustive": False, "learner2d_runs_here": not l2d_exc,
+                      "configurations": len(specs), "nested_wrapper_configurations": len(specs) - nflat,
+                      "nested_wrapper_histories": sum(1 for r in results if G.wrapper_depth(r["spec"]) >= 2),
+                      "exhaustive": False, "learner2d_runs_here": not l2d_exc,
                       "balancing_over_integrator_skipped": bool(bi_exc)})
     chk.log(f"bookkeeping oracle: {len(results)} histories, {sum(r['len'] for r in results)} ops, {tot}; "
             f"{len(chk.failures)} failures ({len({f['signature'] for f in chk.failures})} signatures)")
     return chk.finish(
         rule="one case = one history driven on a real learner (13 base configurations of the 7 learner types; BalancingLearner over 2-3 "
-             "children of each type x 4 strategies; DataSaver over each type): committing asks, tells of pending and of unsolicited "
+             "children of each type x 4 strategies; DataSaver over each type; nested wrappers: BalancingLearner over DataSaver[X] x 4 "
+             "strategies, DataSaver[BalancingLearner[X]], BalancingLearner over BalancingLearners, three levels): committing asks, tells of pending and of unsolicited "
              "in-domain points, tell_many (incl. a known point), tell_pending, re-tells with the same and with a different value, "
              "discards; the oracle runs after EVERY op (evaluations = ops); non-trivial = at least one re-tell, one discard with pending "
              "points and > 2 told points; distinct by (configuration, op list); BalancingLearner histories switch the strategy mid-run "
